@@ -58,7 +58,8 @@ Fixpoint e_inherit (n : nat) (coll : list string) (dead : list (nat * list nat))
       if Nat.eqb sd sn then
         dcoll <- of_opt (aget d (e_n2c s)) EKey ;;
         if coll_eqb coll dcoll then
-          put (e_set_n2p (e_set_removed s (adel d (e_removed s))) (aset n pend (e_n2p s)))
+          put (e_set_n2c (e_set_n2p (e_set_removed s (adel d (e_removed s))) (aset n pend (e_n2p s)))
+                         (aset n dcoll (e_n2c s)))
         else emit (OLogDiff d n)
       else e_inherit n coll r
   end.
@@ -71,9 +72,15 @@ Definition e_add_node_collection (n : nat) (coll : list string) : E unit :=
     s1 <- get ;;
     if e_numnodes s1 <=? length (e_n2c s1) then put (e_set_completed s1 true) else ret tt
   else
-    match e_removed s with
-    | [] => ret tt
-    | dead => e_inherit n coll dead
+    e_inherit n coll (e_removed s) ;;;
+    s1 <- get ;;
+    pend <- of_opt (aget n (e_n2p s1)) EKey ;;
+    match pend with
+    | [] =>                                  (* nothing to take over: the node is not needed *)
+        node_shutdown e_nt e_set_nt n ;;;
+        s2 <- get ;;
+        put (e_set_started s2 (e_started s2 ++ [n]))
+    | _ => ret tt
     end.
 
 Definition e_mark_test_complete (n : nat) (idx : nat) : E unit :=
@@ -86,6 +93,7 @@ Definition e_remove_node (n : nat) : E (option string) :=
   s <- get ;;
   pend <- of_opt (aget n (e_n2p s)) EKey ;;
   put (e_set_n2p s (adel n (e_n2p s))) ;;;
+  (s0 <- get ;; if e_completed s0 then ret tt else put (e_set_n2c s0 (adel n (e_n2c s0)))) ;;;
   match pend with
   | [] => ret None
   | i :: rest =>
@@ -103,16 +111,19 @@ Definition e_schedule_node (n : nat) : E unit :=
   s <- get ;;
   if mem_nat n (e_started s) then ret tt else
   pend <- of_opt (aget n (e_n2p s)) EKey ;;
-  (match pend with
-   | [] =>
-       coll <- of_opt (aget n (e_n2c s)) EKey ;;
-       put (e_set_n2p s (aset n (seq 0 (length coll)) (e_n2p s))) ;;;
-       node_send e_nt n CRunAll ;;;
-       node_shutdown e_nt e_set_nt n
-   | _ => node_send e_nt n (CRun pend)
-   end) ;;;
-  s1 <- get ;;
-  put (e_set_started s1 (e_started s1 ++ [n])).
+  match pend, aget n (e_n2c s) with
+  | [], None => ret tt                 (* a replacement that has not reported its collection yet *)
+  | [], Some coll =>
+      put (e_set_n2p s (aset n (seq 0 (length coll)) (e_n2p s))) ;;;
+      node_send e_nt n CRunAll ;;;
+      node_shutdown e_nt e_set_nt n ;;;
+      s1 <- get ;;
+      put (e_set_started s1 (e_started s1 ++ [n]))
+  | _, _ =>
+      node_send e_nt n (CRun pend) ;;;
+      s1 <- get ;;
+      put (e_set_started s1 (e_started s1 ++ [n]))
+  end.
 
 Definition e_schedule : E unit :=
   s <- get ;;
